@@ -47,7 +47,7 @@ EXHAUSTIVE = {"quick": False, "thorough": False}
 # hand-written, pinned to the normalised AST: loops over shifted slices (openlines, circular_hough, regional_maximum);
 # convex_hull_transform translates automatically but its term, written as a tree, has 1.6e9 nodes (the language has
 # no sharing construct)
-HAND_TERMS = ["openlines", "circular_hough", "regional_maximum", "convex_hull_transform"]
+HAND_TERMS = ["openlines", "circular_hough", "regional_maximum"]
 BINARY = ["bridge", "clean", "diag", "endpoints", "branchpoints", "fill", "fill4", "hbreak", "vbreak", "majority",
           "remove", "spur", "thicken", "thin", "skeletonize"]
 LISTED = ["median_filter", "grey_erosion", "grey_dilation", "opening", "closing", "white_tophat", "black_tophat",
@@ -127,10 +127,13 @@ def emit(terms, rejected, extra=None):
            "Import ListNotations.", ""]
     body = []
     order = [n for n in ("median_filter",) if n in terms] + [n for n in LISTED if n != "median_filter"]
+    sizes = {}
     for name in list(rejected) + order + list(extra):
         t = rejected[name] if name in rejected else (extra[name] if name in extra else terms[name])
-        body.append("(* %s:  %s *)" % (name, G.show(t).replace("(*", "( *").replace("*)", "* )")))
-        body.append("Definition prog_%s : expr :=\n  %s." % (name, em.coq(t)))
+        sizes[name] = (em.dag_size(t), em.tsize(t))
+        body.append("(* %s (%d DAG nodes, %d as a tree):  %s *)" % (
+            name, sizes[name][0], sizes[name][1], G.show(t).replace("(*", "( *").replace("*)", "* )")))
+        body.append("Definition prog_%s : prog :=\n  %s." % (name, em.prog(t)))
         if name in rejected:
             body.append("Example %s_rejected : accepts prog_%s = false.\nProof. vm_compute. reflexivity. Qed." % (name, name))
         else:
@@ -139,23 +142,27 @@ def emit(terms, rejected, extra=None):
                 body.append("Example %s_restores : restores_outside prog_%s = true.\nProof. vm_compute. reflexivity. Qed."
                             % (name, name))
         body.append("")
+    import maskflow_hand_c12 as Hd
+    for name, t in param.items():
+        body.append("(* %s: the term of %s with a symbolic (abstract) structure s *)" % (name, Hd.PARAM[name][0]))
+        body.append("Definition prog_%s (s : nat) : prog :=\n  %s." % (name, em.prog(t, (Hd.SSYM, "s"))))
+        body.append("Lemma %s_ok : forall s, accepts (prog_%s s) = true.\nProof. intros s. unfold accepts, prog_%s. cbn. "
+                    "rewrite ?PeanoNat.Nat.eqb_refl. cbn. reflexivity. Qed.\n" % (name, name, name))
     out.append("(* library symbols (index: name) *)")
     out.append("(* " + "; ".join("%d: %s" % (i, n.replace("*)", "* )")) for n, i in em.syms.items()) + " *)")
     out.append("(* constants (index: name) *)")
     out.append("(* " + "; ".join("%d: %s" % (i, n.replace("*)", "* )")) for n, i in em.consts.items()) + " *)")
-    out.append("")
-    out.append("(* shared sub-terms (text sharing only) *)")
-    out.extend(em.defs)
+    import re as _re
+    used = set()
+    for n, i in em.syms.items():
+        ident = "sym_" + _re.sub(r"[^A-Za-z0-9]+", "_", n).strip("_")
+        if ident not in used:
+            used.add(ident)
+            out.append("Definition %s : nat := %d." % (ident, i))
     out.append("")
     out.extend(body)
-    import maskflow_hand_c12 as Hd
-    for name, t in param.items():
-        out.append("(* %s: the term of %s with a symbolic structure radius r *)" % (name, Hd.PARAM[name][0]))
-        out.append("Definition prog_%s (r : nat) : expr :=\n  %s." % (name, em.coq_param(t, Hd.RSYM)))
-        out.append("Lemma %s_ok : forall r, accepts (prog_%s r) = true.\nProof. intros r. unfold accepts, prog_%s. cbn. "
-                   "rewrite ?PeanoNat.Nat.leb_refl. cbn. reflexivity. Qed.\n" % (name, name, name))
-    out.append("Definition listed_progs : list expr :=\n  [%s]." % "; ".join("prog_" + n for n in LISTED))
-    out.append("Definition binary_progs : list expr :=\n  [%s]." % "; ".join("prog_" + n for n in BINARY))
+    out.append("Definition listed_progs : list prog :=\n  [%s]." % "; ".join("prog_" + n for n in LISTED))
+    out.append("Definition binary_progs : list prog :=\n  [%s]." % "; ".join("prog_" + n for n in BINARY))
     out.append("Lemma listed_accepted : forallb accepts listed_progs = true.\nProof. vm_compute. reflexivity. Qed.")
     out.append("Lemma binary_restore : forallb restores_outside binary_progs = true.\nProof. vm_compute. reflexivity. Qed.")
     out.append("Lemma listed_count : (length listed_progs, length binary_progs) = (%d, %d)%%nat.\nProof. reflexivity. Qed."
